@@ -122,6 +122,40 @@ func genPairCase(t *rapid.T) *PairCase {
 		c.V = dupParts(t, c.V)
 		c.ShareV = rapid.Bool().Draw(t, "sharev")
 	}
+	if rapid.IntRange(0, 9).Draw(t, "imitate") == 0 {
+		// two different values of one type whose texts coincide once strings are written without
+		// quotes or escapes: a string holding the container's own separator
+		a, b := gen.Str(t), gen.Str(t)
+		k1, k2 := "k", "k2"
+		ls := func(xs ...string) *m.Val {
+			v := &m.Val{T: m.List(m.Str)}
+			for _, x := range xs {
+				v.L = append(v.L, m.VStr(x))
+			}
+			return v
+		}
+		switch rapid.IntRange(0, 4).Draw(t, "imitation") {
+		case 0:
+			c.V, c.W = ls(a+", "+b), ls(a, b)
+		case 1:
+			c.V = &m.Val{T: m.List(m.List(m.Str)), L: []*m.Val{ls(a + "], [" + b)}}
+			c.W = &m.Val{T: m.List(m.List(m.Str)), L: []*m.Val{ls(a), ls(b)}}
+		case 2:
+			c.V = m.VMap(m.Str, m.Str, m.Entry{K: m.VStr(k1), V: m.VStr(a + ", " + k2 + ": " + b)})
+			c.W = m.VMap(m.Str, m.Str, m.Entry{K: m.VStr(k1), V: m.VStr(a)}, m.Entry{K: m.VStr(k2), V: m.VStr(b)})
+		case 3:
+			c.V, c.W = ls(a+"\", \""+b), ls(a, b)
+		default:
+			c.V = &m.Val{T: m.List(m.Maybe(m.Str)), L: []*m.Val{m.VJust(m.Str, m.VStr(a+"), Just("+b))}}
+			c.W = &m.Val{T: m.List(m.Maybe(m.Str)), L: []*m.Val{m.VJust(m.Str, m.VStr(a)), m.VJust(m.Str, m.VStr(b))}}
+		}
+		c.Rel = "separator-in-string"
+		c.Host = rapid.Bool().Draw(t, "host")
+		if c.Host {
+			c.V, c.W = c.V.Conform(nil), c.W.Conform(nil)
+		}
+		return c
+	}
 	switch rapid.IntRange(0, 5).Draw(t, "rel") {
 	case 0:
 		c.Rel, c.W = "copy", c.V
@@ -336,7 +370,7 @@ func checkPair(c *PairCase) *Outcome {
 		classes = append(classes, "number>=2^53")
 	}
 	reprDiffers := c.V.T.OrderString() != c.W.T.OrderString() || c.V.Render() != c.W.Render() || c.Rel == "permuted"
-	return ok((eq && reprDiffers && c.Rel == "permuted") || c.Rel == "leaf-changed", classes...)
+	return ok((eq && reprDiffers && c.Rel == "permuted") || c.Rel == "leaf-changed" || c.Rel == "separator-in-string", classes...)
 }
 
 var c18 = Register(&Prop[PairCase]{ID: "C18", Name: "pairs", Gen: genPairCase, Check: checkPair})
@@ -386,7 +420,7 @@ func eachNumPair(yield func(*NumPair) bool) {
 }
 
 func TestC18(t *testing.T) {
-	R.Rule = "pairs (v, w) of one type (primitives, nested lists / maps / objects / optionals to depth 4): w is a copy, a field-order and insertion-order permutation, v with one leaf changed to a clearly different value (numbers identical or differing by > 1e-6, across 2^53 and 2^63; strings needing escapes; instants, several zones), or unrelated; built through the value constructors (one case in six with repeated sub-values being one shared value on the v side only) or as Go host data through conv; oracle: agreement of val.Equals, Val.String equality, Val.Key equality, isset([v:1], w), union / intersect / diff cardinalities, == / != and string(v) == string(w) for equal values, labelled by the model's own equality; reflexivity and symmetry; plus all pairs of the boundary numeric pool for distinct renderings and keys; non-trivial = a model-equal pair in another representation, or a pair differing in exactly one leaf"
+	R.Rule = "pairs (v, w) of one type (primitives, nested lists / maps / objects / optionals to depth 4): w is a copy, a field-order and insertion-order permutation, v with one leaf changed to a clearly different value (numbers identical or differing by > 1e-6, across 2^53 and 2^63; strings needing escapes; instants, several zones), unrelated, or two different values whose texts coincide once strings are written without quotes (a string holding the container's separator); built through the value constructors (one case in six with repeated sub-values being one shared value on the v side only) or as Go host data through conv; oracle: agreement of val.Equals, Val.String equality, Val.Key equality, isset([v:1], w), union / intersect / diff cardinalities, == / != and string(v) == string(w) for equal values, labelled by the model's own equality; reflexivity and symmetry; plus all pairs of the boundary numeric pool for distinct renderings and keys; non-trivial = a model-equal pair in another representation, or a pair differing in exactly one leaf"
 	R.Assume = []string{"model.ValEqual (harness) labels pairs; numbers inside a pair are identical or clearly different (the property's own restriction)"}
 	reportKnown(t, "C18")
 	runRegress(t, "C18")
